@@ -23,6 +23,14 @@ pub fn slice_all<T, G: Fn(&T) -> bool>(s: &Vec<T>, f: G) -> (r: bool)
         r ==> forall|i: int| 0 <= i < s@.len() ==> call_ensures(f, (&s@[i],), true),
         !r ==> exists|i: int| 0 <= i < s@.len() && call_ensures(f, (&s@[i],), false),
 { unimplemented!() }
+/// `slice.iter().any(f)`: true iff f returned true on some element
+#[verifier::external_body]
+pub fn slice_any<T, G: Fn(&T) -> bool>(s: &Vec<T>, f: G) -> (r: bool)
+    requires forall|x: &T| call_requires(f, (x,)),
+    ensures
+        r ==> exists|i: int| 0 <= i < s@.len() && call_ensures(f, (&s@[i],), true),
+        !r ==> forall|i: int| 0 <= i < s@.len() ==> call_ensures(f, (&s@[i],), false),
+{ unimplemented!() }
 #[verifier::external_body]
 pub fn fmt_opaque() -> String { unimplemented!() }
 /// the derived PartialEq of the field-less enum InstanceType: equality of variants
